@@ -110,7 +110,11 @@ func (data *Data) Serialize(fr *FrameHeader) {
 	if data.hasPadding {
 		fr.SetFlags(
 			fr.Flags().Add(FlagPadded))
-		data.b = http2utils.AddPadding(data.b)
+		// Pad the frame's copy: padding data.b itself made the padding part of
+		// the data the next time the same Data was written.
+		fr.payload = http2utils.AddPadding(append(fr.payload[:0], data.b...))
+
+		return
 	}
 
 	fr.setPayload(data.b)
